@@ -15,6 +15,7 @@
                 FALSE (`upstream_strands_reader`).
 -/
 import DfModel.Sm.SpillPool
+import DfModel.Sm.SpillPoolSplit
 import DfModel.Proofs.C16h
 namespace DfModel.Props.C16
 open DfModel.Sm.SpillPool DfModel.Proofs.C16
@@ -447,6 +448,90 @@ theorem fixed_handles_upstream_history :
   rcases this with rfl | rfl
   · exact h1.2.1
   · exact h1.2.2
+
+/-! ## why the reader's check-then-register regions must be atomic
+
+`reader_wakeup` / `no_lost_wakeup` hold because the reader's "caught up with the writer" check and
+the storing of its waker happen under ONE acquisition of the file lock (and "nothing queued, a sink
+is alive" + registration under one acquisition of the pool lock): each is one region of the model.
+`Sm.SpillPoolSplit` is the variant in which the lock is released between check and registration.
+There a push and the last `Drop` can land in the gap and wake nobody; the two witnesses below are
+kernel-evaluated.  (The harness forces exactly these schedules on the real code through a hooked
+`Waker::clone`, oracle `lost-wakeup-gap`.) -/
+
+/-- with every sink gone nothing but the reader can move (no invariant needed) -/
+theorem only_reader_moves (s : St) (hg : AllGone s) (a : Act) (ha : a ≠ .reader) : step true s a = s := by
+  have hdead : ∀ w, w < s.nw → alive (s.wpc w) = false := fun w hw => by rw [hg w hw]; rfl
+  rcases step_dead true s a hdead with ⟨w, fs, hw, hpc, _⟩ | h | h
+  · rw [hg w hw] at hpc; cases hpc
+  · exact absurd h ha
+  · exact h
+
+/-- file level: batch 0 is pushed and read; the reader's second poll finds itself caught up on file 0
+    and releases the file lock; batch 1 is pushed (`Ok`) and the last sink is dropped — both `wake`
+    calls find no waker —; only then does the reader register its wakers and return Pending. -/
+def splitFileHistory : List Act :=
+  [.push 0 0 10, .create 0 true, .append 0 true true, .giveBack 0,
+   .reader, .reader, .reader,
+   .reader, .reader,
+   .push 0 1 10, .append 0 true true, .giveBack 0,
+   .drop 0, .finalize 0, .finalize 0,
+   .reader, .reader]
+
+/-- pool level: the reader's first poll finds nothing queued and a live sink, and releases the pool
+    lock; batch 0 is pushed and the sink dropped; then the reader registers and returns Pending. -/
+def splitPoolHistory : List Act :=
+  [.reader, .reader,
+   .push 0 0 10, .create 0 true, .append 0 true true, .giveBack 0, .drop 0, .finalize 0, .finalize 0,
+   .reader]
+
+/-- **split_register_loses_wakeup** — if check and registration are two regions, a wake-up is lost:
+    after `splitFileHistory` every sink is gone (so nothing but the reader can ever move), the
+    reader has returned Pending and was never woken, although batch 1 — pushed `Ok` — is waiting
+    in its current file and the file is finished.  The conclusions of `no_lost_wakeup` and of
+    `push_failure_never_strands_reader` (clause 4) are false in this state. -/
+theorem split_register_loses_wakeup :
+    let t := Sm.SpillPoolSplit.run (Sm.SpillPoolSplit.init 1000) splitFileHistory
+    AllGone t.s ∧ (∀ a, a ≠ .reader → step true t.s a = t.s) ∧
+    t.gap = none ∧ t.s.rpc = .idle ∧ t.s.parked = true ∧ t.s.woken = false ∧
+    t.s.cur = some 0 ∧ t.s.rread < (t.s.written 0).length ∧ t.s.finished 0 = true ∧
+    t.s.log = [(0, true), (1, true)] ∧ t.s.delivered = [0] := by
+  intro t
+  have h1 : t.s.nw = 1 ∧ t.s.wpc 0 = .gone := by decide
+  have hg : AllGone t.s := by
+    intro w hw
+    rw [h1.1] at hw
+    have : w = 0 := by omega
+    subst this; exact h1.2
+  exact ⟨hg, only_reader_moves t.s hg, by decide, by decide, by decide, by decide, by decide,
+    by decide, by decide, by decide, by decide⟩
+
+/-- the same at pool level: parked un-woken with a file queued and no sink alive -/
+theorem split_register_loses_wakeup_pool :
+    let t := Sm.SpillPoolSplit.run (Sm.SpillPoolSplit.init 1000) splitPoolHistory
+    AllGone t.s ∧ (∀ a, a ≠ .reader → step true t.s a = t.s) ∧
+    t.gap = none ∧ t.s.rpc = .idle ∧ t.s.parked = true ∧ t.s.woken = false ∧
+    t.s.cur = none ∧ t.s.popped < t.s.nfiles ∧ t.s.count = 0 ∧
+    t.s.log = [(0, true)] ∧ t.s.delivered = [] := by
+  intro t
+  have h1 : t.s.nw = 1 ∧ t.s.wpc 0 = .gone := by decide
+  have hg : AllGone t.s := by
+    intro w hw
+    rw [h1.1] at hw
+    have : w = 0 := by omega
+    subst this; exact h1.2
+  exact ⟨hg, only_reader_moves t.s hg, by decide, by decide, by decide, by decide, by decide,
+    by decide, by decide, by decide, by decide⟩
+
+/-- the atomic regions of the real code keep the writer out of the gap: on the same two schedules
+    (without the trailing reader region, which in the atomic model would already start the next
+    poll) the registration precedes the writer's regions and the wake finds it -/
+theorem atomic_register_keeps_wakeup :
+    let s1 := reach 1000 splitFileHistory.dropLast
+    let s2 := reach 1000 splitPoolHistory.dropLast
+    s1.rpc = .idle ∧ s1.parked = true ∧ s1.woken = true ∧
+    s2.rpc = .idle ∧ s2.parked = true ∧ s2.woken = true := by
+  decide
 
 /-! ## non-vacuity: concrete instances of the hypotheses above (tests, not theorems) -/
 
